@@ -5,7 +5,7 @@
     validity filter of the documented thin-wire modelling rules.
 """
 import numpy as np
-from pmv import common, gen, observe
+from pmv import common, gen, observe, corpus
 from pmv.oracles import georef
 
 ID   = 'C01'
@@ -31,7 +31,7 @@ CASE_TIMEOUT = 300
 
 def plan (tier, seed):
     n = 330 if tier == 'quick' else 6000
-    return [dict (i = i, seed = seed, tier = tier) for i in range (n)]
+    return [dict (i = i, seed = seed, tier = tier) for i in range (n)] + corpus.plan_cases (seed, tier, 2, 6, skip = corpus.OUTSIDE_RULES)
 # end def plan
 
 def curve (rng):
@@ -62,6 +62,12 @@ def curve (rng):
 # end def curve
 
 def make (c):
+    if 'corpus' in c:
+        # the repository's hand-made antennas, at the frequency of the file and moved by up to 8 %, other voltages
+        spec = corpus.make (c, 1)
+        spec ['band'] = 'decide'
+        spec ['refine'] = False
+        return spec
     rng  = np.random.default_rng ([c ['seed'], 1, c ['i']])
     band = 'decide'
     u    = rng.random ()
